@@ -1,11 +1,13 @@
 SPECIFICATION TSpec
 CONSTANTS
-  SetupInTry = FALSE
-  UnfrozenCleansSubs = FALSE
-  CleanupCollects = FALSE
-  ShutdownContained = FALSE
+  SetupInTry = TRUE
+  UnfrozenCleansSubs = TRUE
+  CleanupCollects = TRUE
+  ShutdownContained = TRUE
   RunAppCatchesBase = TRUE
   MaxStartFaults = 1
+  Tree = "one"
+  KindsAllowed = {"exc", "base"}
   Entries = {"Runner", "RunnerNoExplicitCleanup", "RunApp"}
 POSTCONDITION PrintVerdicts
 CHECK_DEADLOCK FALSE
